@@ -161,6 +161,7 @@ pub fn c18_alt_branch_holds(k1: u8, a1: u32, b1: u8, c1: u8, t1: i32, k2: u8, a2
     assume(rule_day_valid(&r1) && rule_day_valid(&r2));
     assume(-RULE_TIME_MAX <= t1 && t1 <= RULE_TIME_MAX && -RULE_TIME_MAX <= t2 && t2 <= RULE_TIME_MAX);
     assume(-UTOFF_MAX <= su && su <= UTOFF_MAX && -UTOFF_MAX <= du && du <= UTOFF_MAX);
+    assume(TS_LO_INNER <= ts && ts <= TS_HI_INNER);
     let s = rule_ts(mk_rule_day(k1, a1, b1, c1), t1, ts) - su as i64; // daylight time starts (UTC)
     let e = rule_ts(mk_rule_day(k2, a2, b2, c2), t2, ts) - du as i64; // daylight time ends (UTC)
     assume(s != e);
@@ -168,6 +169,36 @@ pub fn c18_alt_branch_holds(k1: u8, a1: u32, b1: u8, c1: u8, t1: i32, k2: u8, a2
     let tz = TimeZone {
         transitions: Vec::new(),
         local_time_types: Vec::new(),
+        extra_rule: Some(TransitionRule::Alternate(AlternateLocalTimeType::new(LocalTimeType::new(su, false), r1, t1 as u32, LocalTimeType::new(du, true), r2, t2 as u32))),
+    };
+    assert!(tz.to_local_time_type(ts).utoff == expect);
+}
+/// C18 (dispatch): with a transition table AND an alternating rule, every timestamp from the last transition on is answered by the
+/// rule (the same expectation as c18_alt_branch_holds), every earlier one from the first transition on by the table
+pub fn c18_alt_after_table_holds(k1: u8, a1: u32, b1: u8, c1: u8, t1: i32, k2: u8, a2: u32, b2: u8, c2: u8, t2: i32, su: i32, du: i32, ts: i64, tr0: i64, tr1: i64, u0: i32, u1: i32) {
+    use crate::local::transition_rule::verif_tr::*;
+    use crate::local::transition_rule::AlternateLocalTimeType;
+    assume(k1 <= 2 && a1 <= 365 && k2 <= 2 && a2 <= 365 && (k1 < 2 || a1 <= 12) && (k2 < 2 || a2 <= 12));
+    let (r1, r2) = (mk_rule_day(k1, a1, b1, c1), mk_rule_day(k2, a2, b2, c2));
+    assume(rule_day_valid(&r1) && rule_day_valid(&r2));
+    assume(-RULE_TIME_MAX <= t1 && t1 <= RULE_TIME_MAX && -RULE_TIME_MAX <= t2 && t2 <= RULE_TIME_MAX);
+    assume(-UTOFF_MAX <= su && su <= UTOFF_MAX && -UTOFF_MAX <= du && du <= UTOFF_MAX);
+    assume(tr0 < tr1 && ts >= tr0);
+    assume(TS_LO_INNER <= ts && ts <= TS_HI_INNER);
+    let s = rule_ts(mk_rule_day(k1, a1, b1, c1), t1, ts) - su as i64;
+    let e = rule_ts(mk_rule_day(k2, a2, b2, c2), t2, ts) - du as i64;
+    assume(s != e);
+    let by_rule = if s < e { if s <= ts && ts < e { du } else { su } } else if e <= ts && ts < s { su } else { du };
+    let expect = if ts >= tr1 { by_rule } else { u0 };
+    let mut transitions = Vec::new();
+    transitions.push(Transition::new(tr0, 0));
+    transitions.push(Transition::new(tr1, 1));
+    let mut local_time_types = Vec::new();
+    local_time_types.push(LocalTimeType::new(u0, false));
+    local_time_types.push(LocalTimeType::new(u1, true));
+    let tz = TimeZone {
+        transitions,
+        local_time_types,
         extra_rule: Some(TransitionRule::Alternate(AlternateLocalTimeType::new(LocalTimeType::new(su, false), r1, t1 as u32, LocalTimeType::new(du, true), r2, t2 as u32))),
     };
     assert!(tz.to_local_time_type(ts).utoff == expect);
